@@ -20,3 +20,75 @@ func VerifSortResultsByScore(results []HybridSearchResult) { sortResultsByScore(
 func VerifScoreMapToRanks(scores map[uint32]float64, ascending bool) map[uint32]int {
 	return scoreMapToRanks(scores, ascending)
 }
+
+// VerifVecEntry is one resident vector of an index as seen by the harness.
+type VerifVecEntry struct {
+	ID     uint32
+	Vector []float32
+	Code   []uint8
+}
+
+// VerifVecState is a read-only structural snapshot of a vector index.
+type VerifVecState struct {
+	Trained   bool
+	Centroids [][]float32
+	Codebooks [][]float32 // per subspace, Ksub*dsub values
+	Lists     [][]VerifVecEntry
+	Deleted   []uint32
+}
+
+// VerifSnapshot returns the internal structure of flat / IVF / PQ / IVFPQ indexes.
+func VerifSnapshot(index VectorIndex) VerifVecState {
+	var st VerifVecState
+	switch idx := index.(type) {
+	case *FlatIndex:
+		idx.mu.RLock()
+		defer idx.mu.RUnlock()
+		st.Trained = true
+		l := make([]VerifVecEntry, len(idx.vectors))
+		for i, v := range idx.vectors {
+			l[i] = VerifVecEntry{ID: v.ID(), Vector: v.Vector()}
+		}
+		st.Lists = [][]VerifVecEntry{l}
+		st.Deleted = idx.deletedNodes.ToArray()
+	case *IVFIndex:
+		idx.mu.RLock()
+		defer idx.mu.RUnlock()
+		st.Trained = idx.trained
+		st.Centroids = idx.centroids
+		for _, list := range idx.lists {
+			l := make([]VerifVecEntry, len(list))
+			for i, v := range list {
+				l[i] = VerifVecEntry{ID: v.ID(), Vector: v.Vector()}
+			}
+			st.Lists = append(st.Lists, l)
+		}
+		st.Deleted = idx.deletedNodes.ToArray()
+	case *PQIndex:
+		idx.mu.RLock()
+		defer idx.mu.RUnlock()
+		st.Trained = idx.trained
+		st.Codebooks = idx.codebooks
+		l := make([]VerifVecEntry, len(idx.vectorNodes))
+		for i, v := range idx.vectorNodes {
+			l[i] = VerifVecEntry{ID: v.ID(), Vector: v.Vector(), Code: idx.codes[i]}
+		}
+		st.Lists = [][]VerifVecEntry{l}
+		st.Deleted = idx.deletedNodes.ToArray()
+	case *IVFPQIndex:
+		idx.mu.RLock()
+		defer idx.mu.RUnlock()
+		st.Trained = idx.trained
+		st.Centroids = idx.centroids
+		st.Codebooks = idx.codebooks
+		for _, list := range idx.lists {
+			l := make([]VerifVecEntry, len(list))
+			for i, cv := range list {
+				l[i] = VerifVecEntry{ID: cv.Node.ID(), Vector: cv.Node.Vector(), Code: cv.Code}
+			}
+			st.Lists = append(st.Lists, l)
+		}
+		st.Deleted = idx.deletedNodes.ToArray()
+	}
+	return st
+}
